@@ -43,6 +43,80 @@ def find_path(fn, start, goals, blocked=(), blocked_edges=()):
     return None
 
 
+def find_path_consistent(fn, start, goals, blocked=(), blocked_edges=()):
+    """like find_path, but a path may not contradict itself on bool variables: constants
+    assigned to bool locals (and copies / negations of them) are tracked along the path and a
+    switch on such a local is followed only along the edge its value selects. This removes the
+    paths  `let done = false; .. if !done { work }`  -> skip `work`."""
+    blocked = set(blocked)
+    goals = set(goals)
+    if start in blocked:
+        return None
+
+    def transfer(b, env):
+        env = dict(env)
+        blk = fn.blocks[b]
+        for st in blk["s"]:
+            if st[0] != "a" or len(st[1]) != 1:
+                continue
+            L = st[1][0]
+            rv = st[2]
+            val = None
+            if rv[0] == "use":
+                op = rv[1]
+                if op[0] == "k" and isinstance(op[2], bool):
+                    val = op[2]
+                elif op[0] in ("c", "m") and len(op[1]) == 1 and op[1][0] in env:
+                    val = env[op[1][0]]
+            elif rv[0] == "un" and rv[1] == "Not":
+                op = rv[2]
+                if op[0] in ("c", "m") and len(op[1]) == 1 and op[1][0] in env:
+                    val = not env[op[1][0]]
+            if val is None:
+                env.pop(L, None)
+            else:
+                env[L] = val
+        t = blk["t"]
+        if t and t[0] == "call" and t[3]:
+            env.pop(t[3][0], None)
+        return env
+    start_env = frozenset()
+    prev = {(start, start_env): None}
+    work = [(start, start_env)]
+    while work:
+        state = work.pop(0)
+        b, envf = state
+        if b in goals:
+            path = []
+            s_ = state
+            while s_ is not None:
+                path.append(s_[0])
+                s_ = prev[s_]
+            return path[::-1]
+        env = transfer(b, dict(envf))
+        t = fn.blocks[b]["t"]
+        allowed = None
+        if t and t[0] == "sw" and t[1][0] in ("c", "m") and len(t[1][1]) == 1 and t[1][1][0] in env:
+            v = env[t[1][1][0]]
+            tg = None
+            for val, tb in t[2]:
+                if bool(val) == v and val in (0, 1):
+                    tg = tb
+            allowed = {tg if tg is not None else t[3]}
+        nf = frozenset(env.items())
+        for s in fn.succ[b]:
+            if s in blocked or (b, s) in blocked_edges:
+                continue
+            if allowed is not None and s not in allowed:
+                continue
+            ns = (s, nf)
+            if ns in prev:
+                continue
+            prev[ns] = state
+            work.append(ns)
+    return None
+
+
 def rpo(fn, start=0):
     seen = set()
     order = []
